@@ -336,7 +336,8 @@ _C04_TAIL = [H("stunrs", MSG + n, tier=t, timeout=1800, mem_gb=12, covers=None, 
 KEYREC = "HMACKey::get_key (MD5 / SHA-256 of the key text) -> get_key_rec (records the text it is handed); strings::opaque_string_prepapre / opaque_string_enforce -> models that make the two distinguishable: preparation validates only, enforcement also rewrites one designated character ('~' -> '-', standing for any code point OpaqueString enforcement maps or normalises); alloc::fmt::format is NOT stubbed in this query (the real format! builds the text)"
 _C04_KEY = [H("stunrs", ATT + "c04_long_term_key_text", tier="thorough", timeout=2400, mem_gb=14, covers=None, stubs=[KEYREC], playback=False,
               bounds="one-character user, realm and password, every printable ASCII value each", funcs=["HMACKey::new_long_term", "alloc::fmt::format (real)"])]
-prop("C04", _C04_RAW + _C04_KEY,
+# _C04_KEY (c04_long_term_key_text) is NOT registered: with the real format! the query did not finish in 45 min (unwind 10 and 4)
+prop("C04", _C04_RAW,
      outside="HMAC-SHA1 / HMAC-SHA256 / MD5 / SHA-256 primitives, their argument order inside the primitive crates, and the long-term key derivation string (assumed; covered by the RFC 5769/8489 vectors of the existing suite); 'no other key or message yields this MAC' is a cryptographic assumption; buffers > 44 bytes for the walker, tails beyond one ordinary attribute",
      assumptions=["HMAC is a secure MAC: two different inputs or keys do not collide"])
 DESCR["C04"] = {
